@@ -11,7 +11,8 @@ Definition construct_lroute (v6 withdraw : bool) (r : lroute) : res bytes :=
   bind (if withdraw then Ok WITHDRAW_LABEL_HEX else construct_labels (l_labels r)) (fun lab =>
   let pfx := if v6 then prefix6_octets (l_addr r) (l_len r) else prefix4_octets (l_addr r) (l_len r) in
   let plen := 8 * len lab + l_len r in
-  if 255 <? plen then Exc else Ok ([plen] ++ lab ++ pfx)).
+  if negb (pfx_len_ok v6 (l_len r)) then Exc       (* YVpn.pfx_len_ok: 0..32 / 0..128 or an exception *)
+  else if 255 <? plen then Exc else Ok ([plen] ++ lab ++ pfx)).
 
 Fixpoint construct_lu (v6 withdraw : bool) (rs : list lroute) : res bytes :=
   match rs with
